@@ -139,6 +139,53 @@ example :
       .trigger false [⟨.any, [1200]⟩, ⟨.any, []⟩], .trigger false [⟨.ptoInitial, [1200]⟩, ⟨.ptoInitial, [1200]⟩, ⟨.any, [1200]⟩]]
     L.h.bytesSent = 3600 ∧ L.calls.length = 9 := by decide
 
+/-- `datagram_credited_once`: for EVERY datagram that `handleOnePacket` handles — any size, any number and kind of
+coalesced packets (processed at any level, skipped, or ending the walk) — the received-bytes counter grows by
+exactly the datagram's size, once; the sent-bytes counter is untouched; and on the wire trace the calls amount to
+exactly one arrival of that size (plus possibly the validation mark). Crediting per coalesced packet, or crediting
+the remaining bytes again in each iteration, would break this. -/
+theorem datagram_credited_once (h : H) (size : Nat) (pkts : List Pkt) :
+    ((handleOnePacketCalls size pkts).foldl H.apply h).bytesReceived = h.bytesReceived + size ∧
+    ((handleOnePacketCalls size pkts).foldl H.apply h).bytesSent = h.bytesSent ∧
+    ∃ rest, wireOfCalls h (handleOnePacketCalls size pkts) = .inn size :: rest ∧ ∀ ev ∈ rest, ev = WireEv.validate := by
+  have hw := walkCalls_counters pkts (h.receivedBytes size)
+  refine ⟨?_, ?_, ?_⟩
+  · simpa [handleOnePacketCalls, H.apply, H.receivedBytes] using hw.1
+  · simpa [handleOnePacketCalls, H.apply, H.receivedBytes] using hw.2
+  · refine ⟨wireOfCalls (h.receivedBytes size) (walkCalls pkts), ?_, walkCalls_wire_no_inn pkts _⟩
+    simp [handleOnePacketCalls, wireOfCalls, opWire, H.apply]
+
+example : ((handleOnePacketCalls 1182 [.processed .initial, .processed .initial, .skipped, .processed .initial, .stop,
+    .processed .handshake]).foldl H.apply (H.new .server false)).bytesReceived = 1182 := by decide
+
+/-- bytes the loop's events bring in -/
+def arrived : LoopOp → Nat
+  | .arrive n => n
+  | .datagram size _ => size
+  | _ => 0
+
+/-- … and over a whole run of the loop: the handler's `bytesReceived` is exactly the sum of the sizes of the
+datagrams that arrived — each credited once, whatever was sent in between. -/
+theorem loop_credits_each_datagram_once (pers : Persp) (cav : Bool) (lops : List LoopOp) :
+    (runLoop pers cav lops).h.bytesReceived = (lops.map arrived).sum := by
+  unfold runLoop
+  suffices ∀ (L : LoopSt), (lops.foldl LoopSt.step L).h.bytesReceived = L.h.bytesReceived + (lops.map arrived).sum by
+    rw [this]; simp [H.new]
+  induction lops with
+  | nil => intro L; simp
+  | cons op lops ih =>
+    intro L
+    simp only [List.foldl_cons, List.map_cons, List.sum_cons]
+    rw [ih]
+    cases op with
+    | arrive n => simp [LoopSt.step, arrived, H.receivedBytes, Nat.add_assoc]
+    | processed l => simp [LoopSt.step, arrived, (receivedPacket_counts L.h l).2.1]
+    | trigger c envs => simp [LoopSt.step, arrived, triggerSending_bytesReceived]
+    | closeLocal n => simp [LoopSt.step, arrived]
+    | datagram size pkts =>
+      simp only [LoopSt.step, arrived]
+      rw [(datagram_credited_once L.h size pkts).1, Nat.add_assoc]
+
 /-- the shape of connection.go that `SendLoop.lean` relies on, regenerated from the source (name-based call
 graph of the file): packets are registered with the handler only by `registerPackedShortHeaderPacket` and
 `sendPackedCoalescedPacket`; the only calls into the sending functions from outside `triggerSending`'s call
@@ -289,6 +336,20 @@ theorem foreign_key_token_is_mangled (E : Crypto)
   have := List.append_inj heq (by rw [hn, hn'])
   rw [← this.1] at this
   exact hne (hsep _ _ _ _ _ this.2)
+
+/-- `token_foreign_instance_rejected`: a token sealed by ANOTHER server instance, or offline under any other key
+(the all-zero key included) — i.e. protected under a secret different from this server's — is treated exactly like
+a missing token by this server, for every address and time. (Each `Transport` without an explicit
+`TokenGeneratorKey` draws its own 32 random bytes in `Transport.init`; that the draw really lands in the key the
+server uses is observed by the token driver's `dkey`/`dinitial` operations — monitor `default_key_is_random`.) -/
+theorem token_foreign_instance_rejected (E : Crypto) (C : Codec) (hi : E.Ideal)
+    (hsep : ∀ s s' n d d', E.aeadSeal s n d = E.aeadSeal s' n d' → s = s')
+    (secret other nonce data hdrDCID : Bytes) (hne : other ≠ secret) (hn : nonce.length = tokenNonceSize)
+    (remote : Addr) (now maxTokenAge maxRetryAge : Int) (wantsRetry : Bool) :
+    handleInitial E C secret (protect E other nonce data) hdrDCID remote now maxTokenAge maxRetryAge wantsRetry =
+      (if wantsRetry then .retry else .proceed false hdrDCID none 0) :=
+  (mangled_token_is_absent E C hi secret _ hdrDCID
+    (foreign_key_token_is_mangled E hsep secret other nonce data hne hn) remote now maxTokenAge maxRetryAge wantsRetry).2
 
 /-- the converse direction of "never proof of address": whenever the server proceeds WITH address validation,
 the token bytes are literally an output of the protector under this key, whose sealed struct carries the
